@@ -104,9 +104,24 @@ fn run_prog(p: &Prog) -> Result<Done, String> {
             if unsafe { libc::mkfifo(c.as_ptr(), 0o600) } != 0 {
                 return Err("mkfifo".to_string());
             }
-            // open the reading end first (non-blocking open inside compio), then the writer
-            let rx = compio_fs::pipe::OpenOptions::new().open_receiver(&path).await.map_err(|e| format!("open_receiver: {e}"))?;
-            let tx = compio_fs::pipe::OpenOptions::new().open_sender(&path).await.map_err(|e| format!("open_sender: {e}"))?;
+            // Both ends are opened concurrently: a FIFO open blocks (on a pool thread / in the kernel
+            // worker) until the other end is opened, as open(2) does; where the kernel opens without
+            // waiting the sender may see ENXIO first and tries again, as the documentation describes.
+            let ro = compio_fs::pipe::OpenOptions::new();
+            let so = compio_fs::pipe::OpenOptions::new();
+            let open_tx = async {
+                for _ in 0..200 {
+                    match so.open_sender(&path).await {
+                        Ok(tx) => return Ok(tx),
+                        Err(e) if e.raw_os_error() == Some(libc::ENXIO) => compio_runtime::time::sleep(Duration::from_millis(5)).await,
+                        Err(e) => return Err(e),
+                    }
+                }
+                Err(std::io::Error::from_raw_os_error(libc::ENXIO))
+            };
+            let (rx, tx) = futures_util::join!(ro.open_receiver(&path), open_tx);
+            let rx = rx.map_err(|e| format!("open_receiver: {e}"))?;
+            let tx = tx.map_err(|e| format!("open_sender: {e}"))?;
             (rx, tx)
         } else {
             compio_fs::pipe::anonymous().await.map_err(|e| format!("anonymous: {e}"))?
